@@ -43,7 +43,7 @@ def split_top(s):
     return [x.strip() for x in out if x.strip()]
 
 
-USE_GROUP = re.compile(r"(?P<vis>\bpub(?:\([^)]*\))?\s+)?\buse\s+(?:::)?std::\{")
+USE_GROUP = re.compile(r"(?P<vis>\bpub(?:\([^)]*\))?\s+)?\buse\s+(?:::)?(?P<root>std|core)::\{")
 
 
 def rewrite_nested_uses(src):
@@ -89,7 +89,7 @@ def rewrite_nested_uses(src):
         out += src[pos:m.start()]
         stmts = []
         if keep:
-            stmts.append("%suse std::{%s};" % (vis, ", ".join(keep)))
+            stmts.append("%suse %s::{%s};" % (vis, m.group("root"), ", ".join(keep)))
         for it in moved:
             if it.startswith("sync"):
                 stmts.append("%suse crate::verif_sync%s;" % (vis, it[len("sync"):]))
@@ -100,7 +100,7 @@ def rewrite_nested_uses(src):
     return out, n
 
 
-PATH_SYNC = re.compile(r"(?<![A-Za-z0-9_])(?:::)?std::sync\b")
+PATH_SYNC = re.compile(r"(?<![A-Za-z0-9_])(?:::)?(?:std|core)::sync\b")
 PATH_THREAD = re.compile(r"(?<![A-Za-z0-9_])(?:::)?std::thread\b(?!_local)")
 
 
